@@ -78,7 +78,7 @@ def run_shard(pid, part, tier, shard, nshards, rundir, timeout):
             res = None
     if not part.get("keep_wd"):
         shutil.rmtree(wd, ignore_errors=True)
-    return dict(shard=shard, rc=rc, res=res, log=log, wall=time.time() - t0)
+    return dict(shard=shard, nshards=nshards, rc=rc, res=res, log=log, wall=time.time() - t0)
 
 
 def confirm_case(part, case, rundir, idx):
@@ -117,6 +117,16 @@ def do_replay(pid, path):
         return rc
     rundir = os.path.join(BUILD, "run", pid + ".replay")
     os.makedirs(rundir, exist_ok=True)
+    if rp.get("history_dependent"):
+        rr = run_shard(pid, part, rp["tier"], rp["shard"], rp["nshards"], rundir, part.get("timeout", {}).get(rp["tier"], 3600))
+        again = rr["res"] and any(g["key"] == rp["key"] for g in rr["res"].get("failures", []))
+        if again:
+            print("VIOLATION property=%s replay=%s" % (pid, path))
+            return 1
+        if rr["res"] is None:
+            return machinery_error("replay of %s: shard ended with rc=%s" % (path, rr["rc"]))
+        print("replay: the work unit holds on this tree")
+        return 0
     rc, out = confirm_case(part, rp["case"], rundir, 0)
     print(out)
     if rc == 3 or rc == 97 or (isinstance(rc, int) and rc < 0):
@@ -215,7 +225,7 @@ def main(argv):
         for smp in res.get("samples", [])[: (3 if r["shard"] == (seed % max(1, pm["shards"])) or r["shard"] == 0 else 0)]:
             merged["samples"].append("[%s] %s" % (part["name"], smp))
         for f in res.get("failures", []):
-            f = dict(f); f["part"] = part
+            f = dict(f); f["part"] = part; f["shard"] = r["shard"]; f["nshards"] = r.get("nshards")
             merged["failures"].append(f)
         for k, v in res.get("failcount", {}).items():
             merged["failcount"][k] = merged["failcount"].get(k, 0) + v
@@ -269,6 +279,39 @@ def main(argv):
             continue
         p = write_replay(pid, part, f, out)
         violations.append((key, p, f["what"]))
+    # Second stage for history-dependent failures (state left behind by earlier cases of the same process, e.g. a process-wide
+    # cache): the case string alone does not carry the history, but the work unit (shard) does.  The shard is run again; a key
+    # that fails again in it is believed, and its replay artefact is the shard invocation.
+    shard_rerun = {}
+    for (pname, key) in sorted(unconfirmed):
+        fl = [f for f in merged["failures"] if f["part"]["name"] == pname and f["key"] == key and f.get("nshards")]
+        if not fl:
+            continue
+        f = fl[0]
+        sk = (pname, f["shard"])
+        if sk not in shard_rerun:
+            if len(shard_rerun) >= 6:
+                continue
+            os.makedirs(os.path.join(rundir, "rerun"), exist_ok=True)
+            shard_rerun[sk] = run_shard(pid, f["part"], tier, f["shard"], f["nshards"], os.path.join(rundir, "rerun"),
+                                        f["part"].get("timeout", {}).get(tier, 900 if tier == "quick" else 3600))
+        rr = shard_rerun[sk]
+        again = rr and rr["res"] and any(g["key"] == key for g in rr["res"].get("failures", []))
+        if not again:
+            continue
+        confirmed_keys.add((pname, key))
+        why = unconfirmed.pop((pname, key))
+        if key in known_keys:
+            knownhits.setdefault(key, f["what"])
+            continue
+        d = os.path.join(OUT, "replays", pid); os.makedirs(d, exist_ok=True)
+        safe = "".join(c if c.isalnum() or c in "-_." else "_" for c in key)[:60]
+        rp = os.path.join(d, "%s-%s-shard%d.json" % (pname, safe, f["shard"]))
+        json.dump(dict(property=pid, part=pname, harness=f["part"]["harness"], kind=f["part"]["kind"], key=key, what=f["what"], case=f["case"],
+                       history_dependent=True, tier=tier, shard=f["shard"], nshards=f["nshards"],
+                       note="the case fails as part of its work unit (shard) and not when run alone: it depends on state left by earlier cases of the same process; the whole shard was re-run and failed again with this key",
+                       how="./check %s --replay %s" % (pid, os.path.relpath(rp, ROOT))), open(rp, "w"), indent=1)
+        violations.append((key, rp, f["what"] + "  [history-dependent: reproduces when shard %d/%d is re-run, not from the case alone]" % (f["shard"], f["nshards"])))
     for (pname, key), why in sorted(unconfirmed.items()):
         print("UNCONFIRMED (not reported as violation): part=%s key=%s did not fail again when re-run alone: %s" % (pname, key, why[:200]))
     if unconfirmed and not confirmed_keys and not crashes:
